@@ -15,7 +15,7 @@ verus! {
 class GenError(Exception):
     pass
 
-def build_requests(plan, abstract_backend=False, force_external=None):
+def build_requests(plan, abstract_backend=False, force_external=None, vacuity=False):
     reqs = []
     for i, it in enumerate(plan.items):
         if it.kind == 'fn':
@@ -28,6 +28,9 @@ def build_requests(plan, abstract_backend=False, force_external=None):
                     ens.append([lab, txt])
                 else:
                     ens.append(e)
+            if vacuity and it.status == 'P':
+                # vacuity guard: with a satisfiable precondition `ensures false` must be rejected
+                ens = ens + [['VACUITY', 'false']]
             body = 'keep' if it.status == 'P' else 'external'
             if force_external and it.fid in force_external:
                 body = 'external'
@@ -59,9 +62,9 @@ def indent(text, n):
     pad = ' ' * n
     return ''.join((pad + l if l.strip() else l) for l in text.splitlines(True))
 
-def assemble(plan, repo='/repo', abstract_backend=False, force_external=None, out_path=None):
+def assemble(plan, repo='/repo', abstract_backend=False, force_external=None, out_path=None, vacuity=False):
     """returns dict(text, linemap, report, lost) ; lost = list of (fid, error) for lost anchors"""
-    reqs = build_requests(plan, abstract_backend, force_external)
+    reqs = build_requests(plan, abstract_backend, force_external, vacuity)
     resp = run_vx(repo, reqs)
     out = [HEADER]
     lost = []
